@@ -57,7 +57,7 @@ var Large = Size{Depth: 5, MaxBlocks: 7, MaxInl: 8, InlDepth: 3}
 // Restrict switches constructs off (used for C20's supported construct set and
 // for exclusion-by-finding).
 type Restrict struct {
-	NoRaw, NoHTMLBlocks, NoMultiLineInContainer, PlainTitles, PlainDests, NoImages, NoSetextMulti bool
+	NoRaw, NoHTMLBlocks, NoMultiLineInContainer, PlainTitles, PlainDests, NoImages, NoSetextMulti, NoEmptyItems bool
 	// NoNestedInTight: items of tight lists hold a single block (no nested list)
 	NoNestedInTight bool
 	// TightParaOnly: items of tight lists are single paragraphs
@@ -666,6 +666,14 @@ func (g *Gen) list(c bctx) *Block {
 	ni := 1 + g.pick("nitems", 3)
 	for j := 0; j < ni; j++ {
 		var it []*Block
+		// an item after the first may be empty (a marker and nothing else; the
+		// first is not, because an empty item cannot interrupt a paragraph and a
+		// bare bullet next to the enclosing items' bullets could complete a
+		// thematic break)
+		if j > 0 && !g.R.NoEmptyItems && g.pick("emptyitem", 10) == 9 {
+			b.Items = append(b.Items, nil)
+			continue
+		}
 		if b.Tight {
 			var first *Block
 			tf := g.pick("tightfirst", 7)
@@ -704,7 +712,7 @@ func (g *Gen) list(c bctx) *Block {
 		}
 		b.Items = append(b.Items, it)
 	}
-	if !b.Tight && ni == 1 && len(b.Items[0]) == 1 {
+	if !b.Tight && ni == 1 && len(b.Items[0]) <= 1 {
 		b.Tight = true // a single item with a single block cannot be loose
 	}
 	return b
